@@ -349,7 +349,10 @@ def _run(ctx):
             if ctx.N.equal(ctx.N.AssetInfo) is not None and gp == ctx.N.equal(ctx.N.AssetInfo).path:
                 lemmas.check_equal(ctx, r4)
                 ok_eq = True
-            elif re.search(r"<%s as (core|std)::cmp::PartialEq>::(eq|ne)$" % ctx.N.rx("AssetInfo"), gp):
+            elif re.search(r"<%s as (core|std)::cmp::PartialEq>::(eq|ne)$" % ctx.N.rx("AssetInfo"), gp) or \
+                    re.search(r"cmp::impls::<impl (core|std)::cmp::PartialEq<&('\w+ )?(mut )?B> for &('\w+ )?(mut )?A>::(eq|ne)$", callee) or \
+                    re.search(r"<&('\w+ )?%s as (core|std)::cmp::PartialEq<&('\w+ )?%s>>::(eq|ne)$" % (ctx.N.rx("AssetInfo"), ctx.N.rx("AssetInfo")), gp):
+                # (also the blanket `&A == &B`, which forwards to A == B; the operands are the two AssetInfo elements of the parameter)
                 impls = [i for i in P.impls if i.get("trait", "").endswith("cmp::PartialEq") and i["self"] == ctx.N.AssetInfo]
                 ok_eq = len(impls) == 1 and impls[0]["derived"]
         if not ok_eq:
